@@ -84,6 +84,7 @@ type Lemma struct {
 	Name    string
 	Binders []Binder
 	Steps   []*Clause // assume / let / assert in order
+	Mode    string
 	Props   []string
 	Foreach *Foreach
 	File    string
@@ -406,10 +407,14 @@ func Parse(path, src string) (*File, error) {
 				curF.Opaque = true
 			}
 		case "mode":
-			if curF == nil {
-				return nil, errf("mode outside func")
+			if curF == nil && curL == nil {
+				return nil, errf("mode outside func/lemma")
 			}
-			curF.Mode = strings.TrimSpace(c.rest)
+			if curF != nil {
+				curF.Mode = strings.TrimSpace(c.rest)
+			} else {
+				curL.Mode = strings.TrimSpace(c.rest)
+			}
 		case "results":
 			if curF == nil {
 				return nil, errf("results outside func")
